@@ -868,7 +868,8 @@ pub fn run(which: Which, ctx: &mut Ctx) {
         run_all(case, which, &mut ctx.stats, true, None);
     }
     let ll_cases = tier.pick(700u32, 6000u32);
-    let sizes2 = sizes.clone();
+    // random tails: hubs up to 8200 entries only (a case costs one burst per flavour); the larger hubs are scripted above
+    let sizes2: Vec<u32> = sizes.iter().cloned().filter(|k| *k <= 8200).collect();
     let longlist = parallel(workers, |w| {
         let mut st = Stats::new();
         let cell = std::cell::RefCell::new(&mut st);
